@@ -24,11 +24,16 @@ theorem periodOf_nameOf (u : RotUnit) (m : Nat) (t : Tm) :
 theorem nameOf_unit (u : RotUnit) (t : Tm) : (nameOf u t).unit = u := by
   cases u <;> rfl
 
+/-- a name made by `rotate` is its own truncation (the fields below the unit are absent) -/
+theorem nameOf_idem (u : RotUnit) (t : Tm) : nameOf u (nameOf u t).tm = nameOf u t := by
+  cases u <;> rfl
+
 /-- representation invariant of the time handler, with `lo` an upper bound of `last_sec`
 (the newest effective time seen so far) -/
 structure TInv (toTm : Bool → Int → Tm) (s : TSt β) (lo : Int) : Prop where
   cur : ∀ n, s.h.cur = some n → n.unit = s.h.unit ∧
-    periodOf s.h.unit s.h.mod n.tm = periodOf s.h.unit s.h.mod s.h.lastTm
+    periodOf s.h.unit s.h.mod n.tm = periodOf s.h.unit s.h.mod s.h.lastTm ∧
+    nameOf s.h.unit n.tm = n
   tm : s.h.cur.isSome → s.h.lastTm = toTm s.h.useLocal s.h.lastSec ∧ 1 ≤ s.h.mod ∧ s.h.lastSec ≤ lo
 
 theorem tinv_mono {toTm : Bool → Int → Tm} {s : TSt β} {lo lo' : Int} (inv : TInv toTm s lo)
@@ -45,7 +50,7 @@ theorem tinit_inv (toTm : Bool → Int → Tm) (clock : Int) (fs : TFS β) (u : 
   · intro n hn
     simp only [tinit, trotate, Option.some.injEq] at hn
     subst hn
-    exact ⟨nameOf_unit .., periodOf_nameOf ..⟩
+    exact ⟨nameOf_unit .., periodOf_nameOf .., nameOf_idem ..⟩
   · intro _
     exact ⟨rfl, hm, Int.le_refl _⟩
 
@@ -56,12 +61,13 @@ theorem twrite_spec {toTm : Bool → Int → Tm} {s : TSt β} {lo : Int} (inv : 
     (clock ts : Int) (l : β) (hopen : s.h.cur.isSome) (hlo : lo ≤ effSec clock ts) :
     ∃ h' fs' n, twrite toTm clock s.h s.fs ts l = .ok (h', fs') ∧
       fs'.recs = s.fs.recs ++ [⟨n, effSec clock ts, l⟩] ∧
-      Filed toTm s.h.unit s.h.mod s.h.useLocal ⟨n, effSec clock ts, l⟩ ∧
+      (Filed toTm s.h.unit s.h.mod s.h.useLocal ⟨n, effSec clock ts, l⟩ ∧
+        nameOf s.h.unit n.tm = n) ∧
       h'.unit = s.h.unit ∧ h'.mod = s.h.mod ∧ h'.useLocal = s.h.useLocal ∧ h'.cur = some n ∧
       TInv toTm ⟨h', fs'⟩ (effSec clock ts) := by
   obtain ⟨n0, hn0⟩ := Option.isSome_iff_exists.mp hopen
   obtain ⟨htm, hmod, hls⟩ := inv.tm hopen
-  obtain ⟨hu0, hp0⟩ := inv.cur n0 hn0
+  obtain ⟨hu0, hp0, hid0⟩ := inv.cur n0 hn0
   generalize hsec : effSec clock ts = sec at *
   have hm0 : s.h.mod ≠ 0 := by omega
   by_cases hge : s.h.lastSec ≥ sec
@@ -69,7 +75,7 @@ theorem twrite_spec {toTm : Bool → Int → Tm} {s : TSt β} {lo : Int} (inv : 
     have hEq : sec = s.h.lastSec := by omega
     refine ⟨s.h, { s.fs with recs := s.fs.recs ++ [⟨n0, sec, l⟩] }, n0, ?_, rfl, ?_, rfl, rfl, rfl, hn0, ?_⟩
     · simp [twrite, hn0, hsec, detect, hge, bind, Except.bind]
-    · exact ⟨hu0, by rw [hp0, htm, hEq]⟩
+    · exact ⟨⟨hu0, by rw [hp0, htm, hEq]⟩, hid0⟩
     · exact ⟨inv.cur, fun ho => ⟨htm, hmod, by show s.h.lastSec ≤ sec; omega⟩⟩
   · by_cases hrot : needRot s.h.unit s.h.mod (toTm s.h.useLocal sec) s.h.lastTm = true
     · -- a new period: switch to its file first
@@ -78,23 +84,23 @@ theorem twrite_spec {toTm : Bool → Int → Tm} {s : TSt β} {lo : Int} (inv : 
         { created := if s.fs.created.contains n then s.fs.created else s.fs.created ++ [n],
           recs := s.fs.recs ++ [⟨n, sec, l⟩] }, n, ?_, rfl, ?_, rfl, rfl, rfl, rfl, ?_⟩
       · simp [twrite, hn0, hsec, detect, hge, hm0, hrot, trotate, bind, Except.bind, n]
-      · exact ⟨nameOf_unit .., periodOf_nameOf ..⟩
+      · exact ⟨⟨nameOf_unit .., periodOf_nameOf ..⟩, nameOf_idem ..⟩
       · refine ⟨?_, fun _ => ⟨rfl, hmod, Int.le_refl _⟩⟩
         intro n' hn'
         simp only [Option.some.injEq] at hn'
         subst hn'
-        exact ⟨nameOf_unit .., periodOf_nameOf ..⟩
+        exact ⟨nameOf_unit .., periodOf_nameOf .., nameOf_idem ..⟩
     · -- same period: current file
       have hsame := (needRot_eq_false_iff _ _ _ _).mp (by simpa using hrot)
       refine ⟨{ s.h with lastSec := sec, lastTm := toTm s.h.useLocal sec },
         { s.fs with recs := s.fs.recs ++ [⟨n0, sec, l⟩] }, n0, ?_, rfl, ?_, rfl, rfl, rfl, hn0, ?_⟩
       · simp [twrite, hn0, hsec, detect, hge, hm0, hrot, bind, Except.bind]
-      · exact ⟨hu0, by rw [hp0, hsame]⟩
+      · exact ⟨⟨hu0, by rw [hp0, hsame]⟩, hid0⟩
       · refine ⟨?_, fun _ => ⟨rfl, hmod, Int.le_refl _⟩⟩
         intro n' hn'
         have : n' = n0 := by simpa [hn0] using hn'.symm
         subst this
-        exact ⟨hu0, by rw [hp0, hsame]⟩
+        exact ⟨hu0, by rw [hp0, hsame], hid0⟩
 
 /-- hypothesis on a history: `rotate_mod ≥ 1` at every init, and every message's
 effective time is at least the newest time seen since (and including) the last init -/
@@ -122,7 +128,8 @@ theorem trun_filed (toTm : Bool → Int → Tm) (u : RotUnit) (m : Nat) (loc : B
     CfgConst u m loc ops →
     (s.h.cur.isSome → s.h.unit = u ∧ s.h.mod = m ∧ s.h.useLocal = loc) →
     ∃ s', trun toTm s ops = .ok s' ∧ ∃ new : List (Rec β),
-      s'.fs.recs = s.fs.recs ++ new ∧ (∀ r ∈ new, Filed toTm u m loc r) ∧
+      s'.fs.recs = s.fs.recs ++ new ∧
+      (∀ r ∈ new, Filed toTm u m loc r ∧ nameOf u r.name.tm = r.name) ∧
       new.map (·.line) = twritten s.h.cur.isSome ops := by
   induction ops with
   | nil => intro s lo _ _ _ _; exact ⟨s, rfl, [], by simp, by simp, rfl⟩
@@ -146,7 +153,7 @@ theorem trun_filed (toTm : Bool → Int → Tm) (u : RotUnit) (m : Nat) (loc : B
     | write c ts l =>
       obtain ⟨hlo, ht'⟩ := ht
       by_cases ho : s.h.cur.isSome
-      · obtain ⟨h', fs', n, hw, hr, hf, e1, e2, e3, e4, inv'⟩ := twrite_spec inv c ts l ho hlo
+      · obtain ⟨h', fs', n, hw, hr, ⟨hf, hcanon⟩, e1, e2, e3, e4, inv'⟩ := twrite_spec inv c ts l ho hlo
         obtain ⟨hu, hm, hl⟩ := hcfg ho
         obtain ⟨s', hs', new, h1, h2, h3⟩ := ih ⟨h', fs'⟩ _ inv' ht' hc
           (fun _ => ⟨by rw [e1, hu], by rw [e2, hm], by rw [e3, hl]⟩)
@@ -155,7 +162,7 @@ theorem trun_filed (toTm : Bool → Int → Tm) (u : RotUnit) (m : Nat) (loc : B
         · rw [h1, hr]; simp
         · intro r hr'
           rcases List.mem_cons.mp hr' with rfl | hr'
-          · rw [← hu, ← hm, ← hl]; exact hf
+          · rw [← hu, ← hm, ← hl]; exact ⟨hf, hcanon⟩
           · exact h2 r hr'
         · simp [h3, twritten, ho, e4]
       · have hn : s.h.cur = none := by simpa using ho
@@ -225,7 +232,7 @@ theorem trun_filed_cfg (toTm : Bool → Int → Tm) (ops : List (TOp β)) :
     | write c ts l =>
       obtain ⟨hlo, ht'⟩ := ht
       by_cases ho : s.h.cur.isSome
-      · obtain ⟨h', fs', n, hw, hr, hf, e1, e2, e3, e4, inv'⟩ := twrite_spec inv c ts l ho hlo
+      · obtain ⟨h', fs', n, hw, hr, ⟨hf, hcanon⟩, e1, e2, e3, e4, inv'⟩ := twrite_spec inv c ts l ho hlo
         obtain ⟨s', hs', new, h1, h2⟩ := ih ⟨h', fs'⟩ _ inv' ht'
         refine ⟨s', by simpa [trun, tstep, hw, bind, Except.bind] using hs',
           ⟨n, effSec c ts, l⟩ :: new, by rw [h1, hr]; simp, ?_⟩
